@@ -171,8 +171,9 @@ def validate(fam, path, res):
                             "counters": {k: r.get(k) for k in ("nfev", "njev", "nstep", "naccpt", "nrejct") if k in r}})
 
 
-def loop_conformance(fam, path, res, method="RADAU", module="Trace_Radau", banner="RADAU-TRACE"):
-    """Level B: every recorded RADAU / BDF run (low-level and through solve_ivp) is a behaviour of Radau.tla / Bdf.tla
+def loop_conformance(fam, path, res, method="RADAU", module="Trace_Radau", banner="RADAU-TRACE", cfg=None):
+    """Level B: every recorded RADAU / BDF / DOPRI5 / DOP853 run (low-level and through solve_ivp) is a behaviour of
+    Radau.tla / Bdf.tla / Dopri.tla
     (trace validation with the solver's decision points logged through the hook ivp::verif_trace).
     Rejections are specification drift, never violations."""
     runs, cur, meta = [], None, None
@@ -204,7 +205,7 @@ def loop_conformance(fam, path, res, method="RADAU", module="Trace_Radau", banne
         with open(sel, "w") as f:
             for _id, r in runs:
                 f.writelines(r)
-        t = vlib.tlc(module, module + ".cfg", cwd=SSPEC, workers=1, deque=True, xss=True, xmx="6g",
+        t = vlib.tlc(module, cfg or (module + ".cfg"), cwd=SSPEC, workers=1, deque=True, xss=True, xmx="6g",
                      env={"TRACE": sel}, timeout=1500)
         os.remove(sel)
         verdict = [l for l in t.printed if l.startswith('<<"' + banner + '"')]
@@ -253,6 +254,8 @@ def run_families(fams, tier, seed, work):
             validate(fam if si == 0 else f"{fam}#{si}", p, res)
             loop_conformance(fam if si == 0 else f"{fam}#{si}", p, res, "RADAU", "Trace_Radau", "RADAU-TRACE")
             loop_conformance(fam if si == 0 else f"{fam}#{si}", p, res, "BDF", "Trace_Bdf", "BDF-TRACE")
+            loop_conformance(fam if si == 0 else f"{fam}#{si}", p, res, "DOPRI5", "Trace_Dopri", "DOPRI-TRACE", "Trace_Dopri5.cfg")
+            loop_conformance(fam if si == 0 else f"{fam}#{si}", p, res, "DOP853", "Trace_Dopri", "DOPRI-TRACE", "Trace_Dop853.cfg")
             if tier != "quick":
                 os.remove(p)
     return res
